@@ -1029,8 +1029,15 @@ class YAMLPath:
 
         Returns:  (str) `section` with all special symbols escaped
         """
-        return YAMLPath.ensure_escaped(
+        escaped: str = YAMLPath.ensure_escaped(
             section,
             '\\', str(pathsep), '(', ')', '[', ']', '^', '$', '%',
             ' ', "'", '"'
         )
+
+        # A leading / would have a dot-notation path mistaken for
+        # forward-slash notation; escaped, it remains part of the key.
+        if str(pathsep) != "/" and escaped.startswith("/"):
+            escaped = "\\" + escaped
+
+        return escaped
